@@ -109,6 +109,12 @@ PartitionedF(v, p)   == LET q == v.shape[1] \div p IN
 ChunkedPre(v, c) == Dim(v) >= 1 /\ c >= 1 /\ v.shape[1] >= 1 /\ v.shape[1] % c = 0
 ChunkedF(v, c)   == PartitionedF(v, v.shape[1] \div c)
 
+(* halved() = partitioned(2); sliced(a, b, s) = sliced(a, b).strided(s); operator~ = transposed() *)
+HalvedPre(v) == Dim(v) >= 1 /\ v.shape[1] % 2 = 0
+HalvedF(v)   == PartitionedF(v, 2)
+Sliced3Pre(v, a, b, s) == SlicedPre(v, a, b) /\ s >= 1 /\ (b - a) % s = 0 /\ v.first[1] % s = 0
+Sliced3F(v, a, b, s)   == StridedF(SlicedF(v, a, b), s)
+
 (* flatted additionally needs a layout-level precondition (is_flattable()),   *)
 (* which the state machines conjoin; abstractly it is the row-major merge   *)
 (* of the two leading dimensions                                            *)
@@ -178,6 +184,9 @@ ApplyPre(v, o) ==
     [] o.op = "partitioned" -> PartitionedPre(v, o.args[1])
     [] o.op = "chunked"     -> ChunkedPre(v, o.args[1])
     [] o.op = "flatted"     -> FlattedPre(v)
+    [] o.op = "halved"      -> HalvedPre(v)
+    [] o.op = "sliced3"     -> Sliced3Pre(v, o.args[1], o.args[2], o.args[3])
+    [] o.op = "tilde"       -> TransposedPre(v)
     [] o.op = "broadcast"   -> BroadcastAtPre(v, o.args[1])
     [] o.op = "reindexed"   -> ReindexedPre(v, o.args)
     [] o.op = "blocked"     -> BlockedPre(v, o.args[1], o.args[2])
@@ -198,6 +207,9 @@ ApplyF(v, o) ==
     [] o.op = "partitioned" -> PartitionedF(v, o.args[1])
     [] o.op = "chunked"     -> ChunkedF(v, o.args[1])
     [] o.op = "flatted"     -> FlattedF(v)
+    [] o.op = "halved"      -> HalvedF(v)
+    [] o.op = "sliced3"     -> Sliced3F(v, o.args[1], o.args[2], o.args[3])
+    [] o.op = "tilde"       -> TransposedF(v)
     [] o.op = "broadcast"   -> BroadcastAtF(v, o.args[1])
     [] o.op = "reindexed"   -> ReindexedF(v, o.args)
     [] o.op = "blocked"     -> BlockedF(v, o.args[1], o.args[2])
